@@ -229,6 +229,7 @@ theorem step_safe (hc : CfgOK c) (hcu : CfgOK cu) (hw : WFW c cu w) (op : Op) (h
   case addC ch => exact Or.inl (mutS_ok hw (appendCh_safe hc hs 1 ch))
   case sprintf a => exact Or.inl (mutS_ok hw (sprintf_safe hc hs _))
   case sprintf2 a v => exact Or.inl (mutS_ok hw (sprintf_safe hc hs _))
+  case sprintfW a wa v b => exact Or.inl (mutS_ok hw (sprintfF_safe hc hs _))
   case cmpF f => exact Or.inl (obs_ok hw (fullCompare_safe hs (sel_len hw f)))
   case cmpS d => exact Or.inl (obs_ok hw (fullCompare_safe hs (hdl d)))
   case cmpP a => exact Or.inl (obs_ok hw (cstr_then ha (fun n hn => fullCompare_safe hs (by omega))))
